@@ -35,6 +35,13 @@ InitAllowed(presence, parentOK) ==
   ELSE IF parentOK THEN {[ok |-> TRUE, after |-> "created"]}
   ELSE {[ok |-> TRUE, after |-> "created"], [ok |-> FALSE, after |-> "same"]}
 
+\* `mockery init` with no package argument, or with several: the statement is about `init <package>`; whatever
+\* the command does with another argument shape it does not touch an existing file, and it either fails leaving
+\* nothing behind or succeeds with a file (never a failure that leaves a file).
+InitAllowedOtherArgs(presence) ==
+  IF presence = "yes" THEN {[ok |-> FALSE, after |-> "same"]}
+  ELSE {[ok |-> TRUE, after |-> "created"], [ok |-> FALSE, after |-> "same"]}
+
 \* Concurrent inits on one target path are a history too: whichever comes second finds the file existing.
 \* oks: how many of the concurrent commands reported success.  On an absent target (parent present) exactly
 \* one does, and the file that survives is the one that command wrote (checked by the load that follows).
